@@ -20,6 +20,8 @@ impl CasManager {
 
     pub fn read_blob(&self, blob_hash: &BlobHash) -> Result<bytes::Bytes, CasManagerError> {
         let cas_path = self.paths.cas_file_path(blob_hash);
+        #[cfg(feature = "verif")]
+        crate::verif::point("cas.open_blob");
         let bytes = std::fs::read(&cas_path).map_err(|e| CasManagerError::FileOperation {
             operation: CasIoOperation::ReadContent,
             path: cas_path.clone(),
@@ -30,6 +32,8 @@ impl CasManager {
 
     pub fn blob_bufreader(&self, blob_hash: &BlobHash) -> Result<BufReader<File>, CasManagerError> {
         let cas_path = self.paths.cas_file_path(blob_hash);
+        #[cfg(feature = "verif")]
+        crate::verif::point("cas.open_blob");
         let file = File::open(&cas_path).map_err(|e| CasManagerError::FileOperation {
             operation: CasIoOperation::OpenBuffered,
             path: cas_path.clone(),
@@ -52,6 +56,8 @@ impl CasManager {
         }
 
         let cas_path = self.paths.cas_file_path(blob_hash);
+        #[cfg(feature = "verif")]
+        crate::verif::point("cas.open_blob");
         let file = File::open(&cas_path).map_err(|e| CasManagerError::FileOperation {
             operation: CasIoOperation::OpenRangeRead,
             path: cas_path.clone(),
@@ -157,6 +163,8 @@ impl CasManager {
     pub fn delete_blobs(&self, hashes: &[BlobHash]) -> Result<(), CasManagerError> {
         for hash in hashes {
             let file_path = self.paths.cas_file_path(hash);
+            #[cfg(feature = "verif")]
+            crate::verif::point("cas.unlink");
             match std::fs::remove_file(&file_path) {
                 Ok(_) => {
                     tracing::debug!(
